@@ -190,13 +190,42 @@ func parsePermanodeContinueToken(v string) (t time.Time, br blob.Ref, ok bool) {
 		return
 	}
 	// The time may be before 1970, i.e. negative.
-	nano, err := strconv.ParseInt(v[:col], 10, 64)
-	if err != nil {
-		return
+	if sec, nsec, isSplit := strings.Cut(v[:col], "."); isSplit {
+		// "seconds.nanoseconds": a time outside of what an int64 of
+		// nanoseconds can hold (see continueTokenTime).
+		s, err := strconv.ParseInt(sec, 10, 64)
+		if err != nil {
+			return
+		}
+		ns, err := strconv.ParseInt(nsec, 10, 64)
+		if err != nil || ns < 0 || ns > 999999999 {
+			return
+		}
+		t = time.Unix(s, ns)
+	} else {
+		nano, err := strconv.ParseInt(v[:col], 10, 64)
+		if err != nil {
+			return
+		}
+		t = time.Unix(0, nano)
 	}
-	t = time.Unix(0, nano)
 	br, ok = blob.Parse(v[col+1:])
 	return
+}
+
+var (
+	minUnixNanoTime = time.Unix(0, math.MinInt64)
+	maxUnixNanoTime = time.Unix(0, math.MaxInt64)
+)
+
+// continueTokenTime returns the time part of a permanode continue token:
+// the UnixNano of t, or, for the times (before 1678, after 2262) whose
+// UnixNano is undefined, "seconds.nanoseconds".
+func continueTokenTime(t time.Time) string {
+	if t.Before(minUnixNanoTime) || t.After(maxUnixNanoTime) {
+		return fmt.Sprintf("%d.%09d", t.Unix(), t.Nanosecond())
+	}
+	return strconv.FormatInt(t.UnixNano(), 10)
 }
 
 // addContinueConstraint conditionally modifies q.Constraint to scroll
@@ -1424,7 +1453,7 @@ func (q *SearchQuery) setResultContinue(corpus *index.Corpus, res *SearchResult)
 	if !ok {
 		return
 	}
-	res.Continue = fmt.Sprintf("pn:%d:%v", t.UnixNano(), lastpn)
+	res.Continue = fmt.Sprintf("pn:%s:%v", continueTokenTime(t), lastpn)
 }
 
 type matchFn func(context.Context, *search, blob.Ref, camtypes.BlobMeta) (bool, error)
